@@ -42,9 +42,8 @@ theorem undisciplined_exact :
     table.undisciplinedIn (reachClaim .controller) (reachClaim .filter) = claimedUndisciplined := by
   decide +kernel
 
-/-- every undisciplined member is one of the six known skip flags -/
-theorem claimed_sub_skipFlags : ∀ f ∈ claimedUndisciplined, f ∈ table.fieldIds skipFlags := by
-  decide +kernel
+/-- **must hold**: no member violates the discipline -/
+theorem claimed_empty : claimedUndisciplined = [] := by decide +kernel
 
 /-- no member of `FilteringAlgorithm` is undisciplined -/
 theorem claimed_not_lifecycle :
